@@ -58,6 +58,21 @@ pub struct MonState {
   repeat_pending: bool
 }
 
+fn sorted(v: &[KeyCode]) -> Vec<KeyCode> { let mut x = v.to_vec(); x.sort(); x }
+
+// identity of the monitor's own state, history excluded (two histories that agree on this and on the mapper state
+// are indistinguishable for every monitor from here on)
+pub fn mon_key(st: &MonState) -> u64 {
+  let armed: Vec<(KeyCode, KeyCode, u64, Vec<KeyCode>, bool)> = {
+    let mut a: Vec<_> = st.armed.iter().map(|a| (a.m, a.t, mapping_hash(&a.mapping), sorted(&a.h), a.premise3)).collect();
+    a.sort();
+    a
+  };
+  let mut pairs = st.c02d_pairs.clone();
+  pairs.sort();
+  hash64(&(sorted(&st.in_set), sorted(&st.out_set), st.fired_since_rest, pairs, state_hash(&st.shadow), st.c07_watch, armed, sorted(&st.limbo), sorted(&st.ever_armed), st.repeat_pending))
+}
+
 pub fn fresh_state() -> VerifState {
   VerifState {
     input_pressed_keys: vec![], active_mappings: vec![], pass_through_keys: vec![],
@@ -890,6 +905,45 @@ fn explore_layout(case: &LayoutCase, flags: &Flags, walks: usize, wp: &WalkParam
   }
 }
 
+// Breadth-first enumeration of every reachable (mapper state, monitor state) of a small layout with at most n_max keys
+// held: every operation (each fresh press, each release, each ill-formed press/release, release-all) is applied once in
+// every such state, with all monitors of the property on. Completes when the frontier empties below the bound.
+fn explore_exhaustive(case: &LayoutCase, flags: &Flags, n_max: usize, max_states: usize, out: &mut ShardOut, known: &[String]) -> bool {
+  let mut eng = Engine::new(case, flags.clone());
+  let mut seen: HashSet<(u64, u64)> = HashSet::new();
+  let mut queue: std::collections::VecDeque<(VerifState, MonState)> = std::collections::VecDeque::new();
+  eng.reset();
+  let s0 = eng.save();
+  seen.insert((state_hash(&s0.0), mon_key(&s0.1)));
+  queue.push_back(s0);
+  out.count("exhaustive_layouts");
+  let mut ops: Vec<Op> = vec![];
+  for k in &case.alphabet { ops.push(Op::P(*k)); ops.push(Op::R(*k)); }
+  ops.push(Op::RA);
+  let mut bad = 0;
+  while let Some(st) = queue.pop_front() {
+    for op in &ops {
+      // at most n_max keys held: a fresh press is skipped when the bound is reached (ill-formed presses are not)
+      if let Op::P(k) = op { if !st.1.in_set.contains(k) && st.1.in_set.len() >= n_max { continue; } }
+      eng.load(&st);
+      let rep = eng.apply(op, out);
+      out.count("exhaustive_transitions");
+      let mut stop = false;
+      for v in rep.violations { if !known.contains(&v.signature) { stop = true; } out.violation(v); }
+      if stop { bad += 1; if bad >= 3 { return false; } continue; }
+      let key = (rep.post_hash, mon_key(&eng.st));
+      if seen.insert(key) {
+        out.count("exhaustive_states");
+        if seen.len() > max_states { out.count("exhaustive_layouts_bound_hit"); return false; }
+        let nx = eng.save();
+        queue.push_back(nx);
+      }
+    }
+  }
+  out.count("exhaustive_layouts_completed");
+  true
+}
+
 fn gen_params_for(prop: &str, rng: &mut Rng, thorough: bool) -> GenParams {
   let max_mappings = if thorough { 7 } else { 6 };
   match prop {
@@ -922,6 +976,10 @@ pub fn run(opts: &Opts) -> i32 {
   let n_gen = opts.num("layouts", if thorough { 60000 } else { 4000 }) as usize;
   let walks_gen = opts.num("walks", if thorough { 40 } else { 30 }) as usize;
   let walks_corpus = opts.num("corpus_walks", if thorough { 6000 } else { 400 }) as usize;
+  let exh_alphabet = opts.num("exh_alphabet", if thorough { 8 } else { 7 }) as usize;
+  let exh_every = opts.num("exh_every", if thorough { 4 } else { 10 }) as usize;
+  let exh_nmax = opts.num("exh_nmax", if thorough { 4 } else { 3 }) as usize;
+  let exh_states = opts.num("exh_states", if thorough { 150000 } else { 20000 }) as usize;
 
   // corpus: every shard explores every relevant corpus layout with its own seed
   let corpus = corpus_layouts();
@@ -948,6 +1006,9 @@ pub fn run(opts: &Opts) -> i32 {
     if !relevant(&opts.prop, &case) { continue; }
     made += 1;
     explore_layout(&case, &flags, walks_gen, &wp, &mut rng, &mut out, &known);
+    if case.alphabet.len() <= exh_alphabet && made % exh_every == 0 {
+      explore_exhaustive(&case, &flags, exh_nmax, exh_states, &mut out, &known);
+    }
   }
   out.write(opts);
   if out.n_violations() > 0 { 1 } else { 0 }
